@@ -271,7 +271,7 @@ def run(ctx):
             if op not in tabs:
                 continue
             pairs = sample_pairs(rng.fork(), n_pairs)
-            lines = [f"{k} bddword {op} {a} {b}" for k, (a, b) in enumerate(pairs)]
+            lines = [f"{k} bdd {op} {a} {b}" for k, (a, b) in enumerate(pairs)]
             rc, outl, err = ctx.run_lines(drv, [], lines)
             model = [l.split()[1] if len(l.split()) > 1 else "?" for l in outl]
             table = oracle_words(op, tabs[op], pairs)
@@ -303,7 +303,7 @@ def run(ctx):
         if rc != 0:
             broken.append("pvh bddeval failed: " + err[-400:])
         else:
-            mlines = [f"{k} bddword {op} {a} {b}" for k, (op, a, b) in enumerate(reqs)]
+            mlines = [f"{k} bdd {op} {a} {b}" for k, (op, a, b) in enumerate(reqs)]
             rc2, mout, _ = ctx.run_lines(drv, [], mlines)
             n_ok = 0
             for k, (op, a, b) in enumerate(reqs):
